@@ -20,16 +20,12 @@ variable [Add R] [Sub R] [Mul R] [Div R] [Neg R] [RealLike R]
 
 /-- `tilt.shift(xs, ys, z, wavelength)`.
 `Tilt` (generated `Gen.tiltShift`): `__init__` stores `self.x = y`, `self.y = x`; `shift` returns `(xs - z*self.x, ys - z*self.y)`.
-`DispersiveTilt.shift`: `dist = (wavelength - dispersion[1])/dispersion[0]`, `x = dist/sqrt(1 + trace[0]**2)`,
+`DispersiveTilt.shift` (generated `Gen.dispersiveShift1`, first-order branches): `dist = (wavelength - dispersion[1])/dispersion[0]`, `x = dist/sqrt(1 + trace[0]**2)`,
 `y = polyval(trace, x)`, then the incoming shift is added. -/
 def TiltEl.shift (e : TiltEl R) (xs ys z wl : R) : R × R :=
   match e with
   | .angular xArg yArg => Gen.tiltShift xArg yArg xs ys z
-  | .dispersive1 t0 t1 d0 d1 =>
-      let dist := (wl - d1) / d0
-      let x := dist / RealLike.sqrt (RealLike.ofInt 1 + t0 * t0)
-      let y := t0 * x + t1
-      (x + xs, y + ys)
+  | .dispersive1 t0 t1 d0 d1 => Gen.dispersiveShift1 RealLike.sqrt (RealLike.ofInt 1) t0 t1 d0 d1 wl xs ys
 
 /-- the loop of `Field.shift`: `x, y = 0, 0; for tilt in self.tilt: x, y = tilt.shift(xs=x, ys=y, ...)` -/
 def foldShift (ts : List (TiltEl R)) (z wl : R) : R × R :=
@@ -86,6 +82,21 @@ def fitTiltOpdSeg (s0 s1 : Int) (px0 px1 : R) (segs : List (Int × (Int → Int 
     Int → Int → R :=
   fun i j => sumList segs fun s => (opd i j - fitSegSubtract s0 s1 px0 px1 s.1 s.2.1 s.2.2 i j) * s.2.1 i j
 end fit
+
+/-! ## How tilt lists are built (generated wiring `Gen.wavefrontInitTilt`, `Gen.fieldMulTilt`, `Gen.tiltInterfaceAppend`) -/
+
+/-- the tilt list of a field after `Wavefront(tilt=w)` (or none), a chain of untilted planes (`Plane.multiply`: `field * phasor`,
+the phasor carrying the plane's own recorded tilts `ptilts`), in order -/
+def tiltListAfterPlanes (init : List (TiltEl R)) (planeTilts : List (List (TiltEl R))) : List (TiltEl R) :=
+  planeTilts.foldl (fun l pt => Gen.fieldMulTilt l pt) init
+
+/-- `Wavefront(tilt=(a, b))`: the initial field's list -/
+def waveTilt (a b : R) : List (TiltEl R) := Gen.wavefrontInitTilt TiltEl.angular a b
+
+/-- multiplication by a `Tilt`/`DispersiveTilt` plane `e`: the plane's own phasor carries no tilt (`Field.__mul__` with an empty
+right list), then `TiltInterface.multiply` appends the element -/
+def tiltListAfterTiltPlane (l : List (TiltEl R)) (e : TiltEl R) : List (TiltEl R) :=
+  Gen.tiltInterfaceAppend (Gen.fieldMulTilt l []) e
 
 section ramp
 variable {K : Type} [Add R] [Sub R] [Mul R] [Neg R] [RealLike R] [Mul K] [CxLike K R]
